@@ -96,11 +96,15 @@ QueryFile(o, f) ==
     ELSE IF o.json THEN [items |-> <<[k |-> "dq", fmt |-> IF o.nested THEN "nested_json" ELSE "flat_json", m |-> m]>>, ok |-> TRUE]
     ELSE [items |-> <<[k |-> "name", f |-> f], [k |-> "dq", fmt |-> "flat_text", m |-> m]>>, ok |-> TRUE]
 
+(* the nesting level of data query results: the -n option if given (-1: not given), else the pragma in the first lines of the
+   script (-1: none), else 1 *)
+EffLevel(o) == IF o.lvl # -1 THEN o.lvl ELSE IF o.pragma # -1 THEN o.pragma ELSE 1
+
 ScriptFile(o, f) ==
     LET m == inv.files[f][1] IN
     \* a script whose queries all start with % needs metadata only: a damaged stop signature goes unnoticed
     IF Pool[m].bad /\ ~o.md THEN [items |-> <<>>, ok |-> FALSE]
-    ELSE [items |-> <<[k |-> "script", m |-> m, lvl |-> o.lvl, md |-> o.md]>>, ok |-> TRUE]
+    ELSE [items |-> <<[k |-> "script", m |-> m, lvl |-> EffLevel(o), md |-> o.md]>>, ok |-> TRUE]
 
 (* encode: the input is the rendering of the first message of the file in the format the two flags name; the output file holds
    the preamble and the message, after what it held before when --append is given and instead of it otherwise *)
@@ -129,7 +133,7 @@ Opts(c) ==
       [] c = "info" -> {o \in [multi : BOOLEAN, count : BOOLEAN, tmpl : BOOLEAN, cont : BOOLEAN] : ~(o.multi /\ o.count) /\ (o.count => ~o.tmpl)}
       [] c = "split" -> [cont : BOOLEAN]
       [] c = "query" -> {o \in [md : BOOLEAN, json : BOOLEAN, nested : BOOLEAN] : (o.nested => o.json) /\ (o.md => ~o.json)}
-      [] c = "script" -> [md : BOOLEAN, lvl : {0, 1, 2, 4}]
+      [] c = "script" -> [md : BOOLEAN, lvl : {-1, 0, 1, 2, 4}, pragma : {-1, 0, 2, 4}]
       [] c = "encode" -> [json : BOOLEAN, attributed : BOOLEAN, append : BOOLEAN, pre : BOOLEAN, exists : BOOLEAN]
 
 FileLists == {<<a>> : a \in FileSet} \cup {<<a, b>> : a \in FileSet, b \in FileSet}
@@ -180,6 +184,10 @@ FilterAndContinue ==
 
 (* encode keeps what the output file held exactly when it existed and --append was given *)
 AppendKeepsOld == (Done /\ inv.cmd = "encode") => (Len(out) = 1 /\ (out[1].old <=> (inv.o.exists /\ inv.o.append)))
+
+(* the option outranks the pragma, the pragma the default *)
+ScriptLevelPrecedence == (Done /\ inv.cmd = "script" /\ status = "ok") =>
+    \A i \in 1..Len(out) : out[i].lvl = (IF inv.o.lvl # -1 THEN inv.o.lvl ELSE IF inv.o.pragma # -1 THEN inv.o.pragma ELSE 1)
 
 Emit == Done => PrintT(ToJson([inv |-> inv, out |-> out, status |-> status]))
 =============================================================================
